@@ -252,6 +252,11 @@ def stepResp (args : List String) : Option String :=
     let c ← natArg code
     let r ← (if reason == "none" then some none else (bytesOfHex reason).map some)
     let hdrs ← parsePairs hs
+    -- documented precondition of `write_headers` ("`Status` … must not be used in `headers`. This is verified by a debug assertion"):
+    -- the harness builds the crate with debug assertions on, so a reserved name is a panic on both sides; the theorems of C20 are
+    -- about header lists that satisfy the precondition
+    let lower (b : UInt8) : UInt8 := if 65 ≤ b.toNat && b.toNat ≤ 90 then b + 32 else b
+    if hdrs.any (fun nv => nv.1.map lower == [115, 116, 97, 116, 117, 115]) then some "panic" else
     match Response.writeHeaders w c r hdrs with
     | (w', some n) => some s!"ok {n} out={hexOrDash w'.out}"
     | (w', none) => some s!"err out={hexOrDash w'.out}"
